@@ -1,8 +1,9 @@
 import OW.Kernels.Basic
+import OW.Kernels.Storage
 /- Kernel models of group Storage (one owner; see /verif/AGENTS.md). Add imports above and entries to `models`. -/
 namespace OW.Kernels.Groups.Storage
 open OW
 
-def models {α} [Num α] : List (KModel α) := [ ]
+def models {α} [Num α] : List (KModel α) := [ Kernels.Storage.model ]
 
 end OW.Kernels.Groups.Storage
